@@ -1,6 +1,8 @@
 import PelGen.GenPeltool
 import PelProofs.TiePeltool
 import PelProps.C11
+import PelGen.GenEffects
+import PelProofs.TieEffects
 /-
   Source tie for C11 (stream `peltool`): the priority chain of `main()` in peltool.py (outside a BMC: the first branch of
   `if not inBMC: … else: …`), regenerated from the source text, is the model's `dispatch` (PelModel/Main.lean) — which callee
@@ -78,5 +80,195 @@ theorem translated_chain_removes_only_on_request (g : FsView → Args → PyOutc
     cases hx : (Pel.dispatch fs a).1 <;> rw [hx] at hg <;> simp [Action.outcome] at hg <;> try exact hg
   rw [← hact]
   exact (C11.main_readonly_without_delete_clean fs a hd hD hc).2.2.2.2
+
+/-! ### stream `effects`: the functions that change the directory, regenerated as computations of the effect monad `Eff.M`
+    (PelModel/TransEffects.lean: I/O steps in source order, each of which may fail under a fault plan; `with`, `try`, loops with
+    `continue` / `break`).  `M.run noFault` = the run in which no step fails; `cliOut` = what the process shows for the outcome,
+    `dirAfter d` = the directory `d` without the entries whose `os.remove` succeeded. -/
+
+open Pel.Eff in
+/-- ★ `deletePELFromPELId(path, id)` is `deleteMode`: `processId` (or its exit), the FIRST top-level entry of the walk whose name contains
+    the processed id is removed — that entry itself, `os.path.join(root, file)` — and nothing else; "PEL not found" otherwise -/
+theorem deletePELFromPELId (g : Sys → Text → Text → M Unit) (h : Gen.deletePELFromPELId? = some g) (y : Sys) (path e : Text) :
+    (cliOut ((g y path e).run noFault), dirAfter (y.walk path) ((g y path e).run noFault).2) = deleteMode e (y.walk path) := by
+  cases h <;> (
+    simp only [M.run, runFn, thenF, run_bind, pyProcessId, deleteMode]
+    cases hp : processId e with
+    | none => simp [cliOut, dirAfter]
+    | some pid =>
+      simp only [run_pure]
+      rw [forEachS_find_run (P := fun f => isInfix pid f.name)
+        (post := fun f st => (.ok true, { st.ok .removeIn with removed := st.removed ++ [(pathJoin path f.name, some f)] }))]
+      · cases hf : (y.walk path).find? (fun f => isInfix pid f.name) with
+        | none => simp [cliOut, dirAfter, printOut, St.ok, nl]; try decide
+        | some f => simp [cliOut, dirAfter, St.ok]
+      · intro x st hx
+        simp [hx]
+      · intro x st hx
+        simp [hx, osRemove, St.ok])
+
+open Pel.Eff in
+/-- ★ `deleteAllPELs(path)`: exactly the top-level entries of the walk for which `os.path.isfile(os.path.join(root, file))` holds are
+    removed (each by its own joined name), in walk order; nothing is printed -/
+theorem deleteAllPELs (g : Sys → Text → M Unit) (h : Gen.deleteAllPELs? = some g) (y : Sys) (path : Text) :
+    ((g y path).run noFault).1 = .ok () ∧
+    ((g y path).run noFault).2.removed =
+      ((y.walk path).filter (fun f => y.isFile (pathJoin path f.name))).map (fun f => (pathJoin path f.name, some f)) ∧
+    cliOut ((g y path).run noFault) = (deleteAllMode (y.walk path)).1 := by
+  cases h <;> (
+    simp only [M.run, runFn, thenF, run_bind]
+    rw [forEachS_all_run (post := fun x st => if y.isFile (pathJoin path x.name) then st.rmEntry path x else st)]
+    · have := foldl_rmEntry path (fun f => y.isFile (pathJoin path f.name)) (y.walk path) {}
+      simp only at this
+      obtain ⟨h1, h2, h3, h4, h5⟩ := this
+      simp [cliOut, deleteAllMode, h1, h2, h3]
+    · intro x st
+      cases hx : y.isFile (pathJoin path x.name) <;> simp [hx, osRemove, St.rmEntry])
+
+open Pel.Eff in
+/-- … which is `deleteAllMode` on a directory whose top-level non-directory entries are all regular files (what the model's `Dir` holds) -/
+theorem deleteAllPELs_all (g : Sys → Text → M Unit) (h : Gen.deleteAllPELs? = some g) (y : Sys) (path : Text)
+    (hreg : ∀ f ∈ y.walk path, y.isFile (pathJoin path f.name) = true) :
+    (cliOut ((g y path).run noFault), dirAfter (y.walk path) ((g y path).run noFault).2) = deleteAllMode (y.walk path) := by
+  obtain ⟨_, h2, h3⟩ := deleteAllPELs g h y path
+  have hf : (y.walk path).filter (fun f => y.isFile (pathJoin path f.name)) = y.walk path :=
+    List.filter_eq_self.mpr hreg
+  rw [hf] at h2
+  simp only [h3, dirAfter, h2, List.filterMap_map]
+  show (_, List.foldl List.erase (y.walk path) (List.filterMap (fun x => some x) (y.walk path))) = _
+  simp [foldl_erase_self, deleteAllMode]
+
+open Pel.Eff in
+/-- ★ one `parseAndWriteOutput(file, out, config, clean)` call, when nothing faults, adds to the log (from ANY log `st`) what `jsonMode` says
+    for the one-file directory: the output file `<out>/<basename(file)>.<eid>.json` with the whole document, the input removed iff
+    `clean` and a document was written, one diagnostic iff there was no document (`main` applies the extension filter before the call) -/
+theorem parseAndWriteOutput (g : Sys → Text → Text → CliOpts → Bool → M Unit) (h : Gen.parseAndWriteOutput? = some g)
+    (y : Sys) (file out : Text) (c : CliOpts) (clean : Bool) (f : FileEntry) (hr : y.read file = some f.data)
+    (hname : basename file = f.name) (st : St) :
+    let m := jsonMode y.env { c with ext := none } clean [f]
+    let r := g y file out c clean noFault st
+    r.1 = .ok () ∧
+    r.2.created = (m.created.map (fun p => (pathJoin out p.1, p.2))).reverse ++ st.created ∧
+    r.2.removed = st.removed ++ m.removed.map (fun _ => (file, none)) ∧
+    r.2.stderr.length = st.stderr.length + m.stderrLines ∧
+    r.2.stdout = st.stdout ∧ r.2.unwind = st.unwind := by
+  cases h <;> (
+    simp only [runFn, thenF, tryExcept, withOpenR, hr, fdRead, run_bind, run_pure, pyParsePEL, jsonMode, fullOf]
+    obtain ⟨o, ho⟩ : ∃ o, parsePEL y.env c.cfg f.data = o := ⟨_, rfl⟩
+    simp only [ho]
+    cases o with
+    | doc eid j =>
+      cases clean <;>
+        simp [ho, hname, withOpenW, osRemove, prettyPrint_dumps_length, prettyPrint_dumps_length_eq, prettyPrint_dumps_isEmpty, writelinesStr_ok, appendCur, diag, s]
+    | filtered => simp [ho, diag]
+    | badHeader => simp [ho, diag]
+    | error e => simp [ho, diag])
+
+open Pel.Eff in
+/-- the calls of the `-j` loop one after the other are `jsonMode` on the files they are made for -/
+theorem json_loop (g : Sys → Text → Text → CliOpts → Bool → M Unit) (h : Gen.parseAndWriteOutput? = some g)
+    (y : Sys) (dir out : Text) (c : CliOpts) (clean : Bool) (files : List FileEntry)
+    (hfs : ∀ f ∈ files, y.read (pathJoin dir f.name) = some f.data ∧ basename (pathJoin dir f.name) = f.name) (st : St) :
+    let m := jsonMode y.env { c with ext := none } clean files
+    let r := runCalls g y c (files.map fun f => (pathJoin dir f.name, out, clean)) noFault st
+    r.1 = .ok () ∧
+    r.2.created.reverse = st.created.reverse ++ m.created.map (fun p => (pathJoin out p.1, p.2)) ∧
+    r.2.removed = st.removed ++ m.removed.map (fun n => (pathJoin dir n, none)) ∧
+    r.2.stderr.length = st.stderr.length + m.stderrLines ∧
+    r.2.stdout = st.stdout ∧ r.2.unwind = st.unwind := by
+  induction files generalizing st with
+  | nil => simp [runCalls, jsonMode]
+  | cons f fs ih =>
+    obtain ⟨hrd, hbn⟩ := hfs f (by simp)
+    have h1 := parseAndWriteOutput g h y (pathJoin dir f.name) out c clean f hrd hbn st
+    obtain ⟨a1, a2, a3, a4, a5, a6⟩ := h1
+    obtain ⟨c1, c2, c3⟩ := jsonMode_cons y.env { c with ext := none } rfl clean f fs
+    simp only [List.map_cons, runCalls, run_bind]
+    rcases hg : g y (pathJoin dir f.name) out c clean noFault st with ⟨r1, st1⟩
+    rw [hg] at a1 a2 a3 a4 a5 a6
+    simp only at a1 a2 a3 a4 a5 a6
+    subst a1
+    have h2 := ih (fun f' hf' => hfs f' (by simp [hf'])) st1
+    obtain ⟨b1, b2, b3, b4, b5, b6⟩ := h2
+    refine ⟨b1, ?_, ?_, ?_, ?_, ?_⟩
+    · rw [b2, a2, c1]; simp
+    · rw [b3, a3, c2]
+      have : (jsonMode y.env { c with ext := none } clean [f]).removed.map (fun _ => (pathJoin dir f.name, (none : Option FileEntry))) =
+          (jsonMode y.env { c with ext := none } clean [f]).removed.map (fun n => (pathJoin dir n, none)) := by
+        simp only [jsonMode, filter_noext, List.map_cons, List.map_nil]
+        cases clean <;> cases fullOf y.env c.cfg f <;> simp
+      rw [this]; simp
+    · rw [b4, a4, c3]; omega
+    · rw [b5, a5]
+    · rw [b6, a6]
+
+open Pel.Eff in
+/-- ★ the whole `-j` branch as the source has it NOW — the loop of `main()` (`Gen.jsonCalls?`, tied above) making its
+    `parseAndWriteOutput` calls (`Gen.parseAndWriteOutput?`) — is `jsonMode` on the directory: the same output files with the same content in
+    the same order, the same inputs removed, the same number of diagnostics; for every directory whose entries can be read under their
+    joined names and whose names contain no `/`, and every `Config` `main` can build (`config.extension` is never `""`) -/
+theorem json_command (gc : MainCfg → List Text → Text → Text → Bool → List (Text × Text × Bool)) (hgc : Gen.jsonCalls? = some gc)
+    (gw : Sys → Text → Text → CliOpts → Bool → M Unit) (hgw : Gen.parseAndWriteOutput? = some gw)
+    (y : Sys) (mc : MainCfg) (hc : mc.ext ≠ some []) (d : Dir) (dir out : Text) (clean : Bool)
+    (hfs : ∀ f ∈ d, y.read (pathJoin dir f.name) = some f.data ∧ basename (pathJoin dir f.name) = f.name) :
+    let m := jsonMode y.env mc.opts clean d
+    let r := (runCalls gw y mc.opts (gc mc (d.map (·.name)) dir out clean)).run noFault
+    r.1 = .ok () ∧
+    r.2.created.reverse = m.created.map (fun p => (pathJoin out p.1, p.2)) ∧
+    r.2.removed = m.removed.map (fun n => (pathJoin dir n, none)) ∧
+    r.2.stderr.length = m.stderrLines ∧ r.2.stdout = [] := by
+  simp only [M.run]
+  rw [jsonCalls gc hgc mc hc, jsonMode_inputs_are_jsonCalls mc hc d dir out clean, jsonMode_prefiltered y.env mc.opts clean d]
+  have key : ∀ files : List FileEntry, (∀ f ∈ files, f ∈ d) →
+      (runCalls gw y mc.opts (files.map fun f => (pathJoin dir f.name, out, clean)) noFault {}).1 = .ok () ∧
+      (runCalls gw y mc.opts (files.map fun f => (pathJoin dir f.name, out, clean)) noFault {}).2.created.reverse =
+        (jsonMode y.env { mc.opts with ext := none } clean files).created.map (fun p => (pathJoin out p.1, p.2)) ∧
+      (runCalls gw y mc.opts (files.map fun f => (pathJoin dir f.name, out, clean)) noFault {}).2.removed =
+        (jsonMode y.env { mc.opts with ext := none } clean files).removed.map (fun n => (pathJoin dir n, none)) ∧
+      (runCalls gw y mc.opts (files.map fun f => (pathJoin dir f.name, out, clean)) noFault {}).2.stderr.length =
+        (jsonMode y.env { mc.opts with ext := none } clean files).stderrLines ∧
+      (runCalls gw y mc.opts (files.map fun f => (pathJoin dir f.name, out, clean)) noFault {}).2.stdout = [] := by
+    intro files hsub
+    have hl := json_loop gw hgw y dir out mc.opts clean files (fun f hf => hfs f (hsub f hf)) {}
+    simp only at hl
+    obtain ⟨h1, h2, h3, h4, h5, _⟩ := hl
+    refine ⟨h1, ?_, ?_, ?_, h5⟩
+    · simpa only [List.reverse_nil, List.nil_append] using h2
+    · simpa only [List.nil_append] using h3
+    · simpa only [List.length_nil, Nat.zero_add] using h4
+  exact key _ (fun f hf => (List.mem_filter.mp hf).1)
+
+/-- C11 ★`delete_at_most_one`, transported: the regenerated `deletePELFromPELId` leaves the directory as it was or removes exactly one
+    top-level entry whose name contains the processed id -/
+theorem translated_delete_at_most_one (g : Eff.Sys → Text → Text → Eff.M Unit) (h : Gen.deletePELFromPELId? = some g)
+    (y : Eff.Sys) (path e : Text) :
+    Eff.dirAfter (y.walk path) ((g y path e).run noFault).2 = y.walk path ∨
+    ∃ pid f, processId e = some pid ∧ f ∈ y.walk path ∧ isInfix pid f.name = true ∧
+      Eff.dirAfter (y.walk path) ((g y path e).run noFault).2 = (y.walk path).erase f := by
+  have := congrArg Prod.snd (deletePELFromPELId g h y path e)
+  simp only at this
+  rw [this]
+  exact C11.delete_at_most_one e (y.walk path)
+
+/-- C11 ★`json_removes_only`, transported to the `-j` branch as regenerated: an input is removed only with `--clean`, and only one whose
+    document was produced -/
+theorem translated_json_removes_only (gc : MainCfg → List Text → Text → Text → Bool → List (Text × Text × Bool)) (hgc : Gen.jsonCalls? = some gc)
+    (gw : Eff.Sys → Text → Text → CliOpts → Bool → Eff.M Unit) (hgw : Gen.parseAndWriteOutput? = some gw)
+    (y : Eff.Sys) (mc : MainCfg) (hc : mc.ext ≠ some []) (d : Dir) (dir out : Text) (clean : Bool)
+    (hfs : ∀ f ∈ d, y.read (pathJoin dir f.name) = some f.data ∧ Eff.basename (pathJoin dir f.name) = f.name) :
+    let r := (Eff.runCalls gw y mc.opts (gc mc (d.map (·.name)) dir out clean)).run noFault
+    (clean = false → r.2.removed = []) ∧
+    ∀ p ∈ r.2.removed, ∃ f ∈ d, p = (pathJoin dir f.name, none) ∧ ∃ eid j, parsePEL y.env mc.opts.cfg f.data = .doc eid j := by
+  intro r
+  obtain ⟨_, _, h3, _, _⟩ := json_command gc hgc gw hgw y mc hc d dir out clean hfs
+  have hm := C11.json_removes_only y.env mc.opts clean d
+  refine ⟨fun hcl => ?_, fun p hp => ?_⟩
+  · show r.2.removed = []
+    rw [h3, hm.1 hcl]; rfl
+  · have hp' : p ∈ (jsonMode y.env mc.opts clean d).removed.map (fun n => (pathJoin dir n, (none : Option FileEntry))) := by
+      rw [← h3]; exact hp
+    obtain ⟨n, hn, rfl⟩ := List.mem_map.mp hp'
+    obtain ⟨f, hf, hfn, eid, j, hdoc⟩ := hm.2 n hn
+    exact ⟨f, hf, by rw [hfn], eid, j, hdoc⟩
 
 end Pel.Tie
